@@ -593,7 +593,7 @@ package mail
 //@ at mail.msgWriter.addFiles mail.File.setHeader#2 before assert[C02:lemma-cte] nocrlf(arg2)
 //@ at mail.msgWriter.addFiles mail.File.setHeader#3 before assert[C02:lemma-desc] nocrlf(arg2)
 //@ at mail.msgWriter.addFiles mail.File.setHeader#4 before assert[C02:lemma-disp] nocrlf(arg2)
-//@ at mail.msgWriter.addFiles mail.File.getHeader#5 before assert[C02:lemma-untainted-so-far] !file.Header.hdrtaint
+//@ at mail.msgWriter.addFiles mail.File.getHeader#4 before assert[C02:lemma-untainted-so-far] !file.Header.hdrtaint
 //@ at mail.msgWriter.addFiles mail.File.setHeader#5 before assert[C02:lemma-cid-stripped] nocrlf(arg2)
 //@ at mail.msgWriter.addFiles mail.File.setHeader#6 before assert[C02:lemma-cid-default] nocrlf(arg2)
 
@@ -1281,3 +1281,11 @@ package mail
 //@ func mail.Msg.SetMessageIDWithValue (messageID)
 //@   requires[C02:inv] m != nil && ghsafe(m)
 //@   ensures[C02:inv] ghsafe(m)
+// C01 / C11: what a file's Content-Transfer-Encoding header announces is what is applied to its content, on every
+// render: the header is written from the encoding of this render (File.Enc may have changed since the last one, and a
+// header found in File.Header - cached by an earlier render, copied from a parsed message - is not trusted)
+//@ ghost field cteannounced string
+//@ at mail.msgWriter.addFiles mail.File.getHeader#1 before ghost[C01,C11:g] file.cteannounced = ""
+//@ at mail.msgWriter.addFiles mail.File.setHeader#2 before assert[C01,C11:file-encoding-announced-is-applied] arg1 == "Content-Transfer-Encoding"
+//@ at mail.msgWriter.addFiles mail.File.setHeader#2 after ghost[C01,C11:g] file.cteannounced = arg2
+//@ at mail.msgWriter.addFiles mail.msgWriter.writeBody#1 before assert[C01,C11:file-encoding-announced-is-applied] file.cteannounced == encoding
